@@ -14,10 +14,14 @@ def part_record(nnsp, scale=1):
     return {"D": D, "v1": [int(x) for x in nnsp.v1], "v2": [int(x) for x in nnsp.v2], "nb": nb}
 
 
-def build_event(s1, s2, k):
+def build_event(s1, s2, k, p=None):
+    """p: a partitioner object that has been used before (its public k is set to k first), or None for a new one"""
     from menelaus.partitioners import NNSpacePartitioner
     a, b = np.array(s1, dtype=float), np.array(s2, dtype=float)
-    p = NNSpacePartitioner(k)
+    if p is None:
+        p = NNSpacePartitioner(k)
+    else:
+        p.k = k
     p.build(a, b)
     d = NNSpacePartitioner.compute_nnps_distance(p.nnps_matrix, p.v1, p.v2)
     dswap = NNSpacePartitioner.compute_nnps_distance(p.nnps_matrix, p.v2, p.v1)
@@ -26,11 +30,45 @@ def build_event(s1, s2, k):
     q = NNSpacePartitioner(ks)
     q.build(a, a)
     dself = NNSpacePartitioner.compute_nnps_distance(q.nnps_matrix, q.v1, q.v2)
-    return {"op": "build", "s1": s1, "s2": s2, "part": part_record(p), "d": num(d), "dswap": num(dswap), "dself": num(dself)}
+    return {"op": "build", "s1": s1, "s2": s2, "k": k, "part": part_record(p), "d": num(d), "dswap": num(dswap), "dself": num(dself)}
 
 
 def build_trace(s1, s2, k):
     return {"cfg": {"k": k}, "ev": [build_event(s1, s2, k)], "s1": s1, "s2": s2, "k": k}
+
+
+def build_session(steps):
+    """ONE partitioner object used for several builds in a row (steps: [(s1, s2, k)]): the same pooled points split differently, the samples
+    swapped, the public neighbourhood size k changed in between - every build describes exactly the samples and the k it was given"""
+    from menelaus.partitioners import NNSpacePartitioner
+    p = NNSpacePartitioner(steps[0][2])
+    ev = [build_event(s1, s2, k, p) for s1, s2, k in steps]
+    return {"cfg": {"k": steps[0][2]}, "ev": ev, "steps": [[s1, s2, k] for s1, s2, k in steps], "s1": steps[0][0], "s2": steps[0][1], "k": steps[0][2]}
+
+
+def resplit_steps(rng):
+    d = rng.randint(1, 2)
+    a = lattice(rng, rng.randint(3, 14), d, [0] * d, rng.randint(2, 6))
+    b = lattice(rng, rng.randint(3, 14), d, [rng.randint(0, 2)] * d, rng.randint(2, 6))
+    pool = a + b
+    nd = len({tuple(r) for r in pool})
+    ks = [k for k in (1, 2, 3, 5) if k <= nd]
+    steps = [(a, b, rng.choice(ks))]
+    for _ in range(rng.randint(2, 4)):
+        r = rng.random()
+        k = steps[-1][2] if rng.random() < 0.5 else rng.choice(ks)
+        if r < 0.3:
+            steps.append((steps[-1][1], steps[-1][0], k))                      # the samples swapped
+        elif r < 0.6:
+            sh = list(pool)
+            rng.shuffle(sh)
+            cut = rng.randint(1, len(sh) - 1)
+            steps.append((sh[:cut], sh[cut:], k))                              # the same pooled points, split differently
+        elif r < 0.8:
+            steps.append((pool, pool, k))                                      # both samples the whole pool: distance 0
+        else:
+            steps.append((a, lattice(rng, rng.randint(3, 10), d, [3] * d, 4), k))   # other points altogether
+    return steps
 
 
 def theta_bracket(part, k, sampling_times, alpha, seed, B=1500):
